@@ -92,6 +92,56 @@ func (f *follower) syncFully(cm *chain.Manager) error {
 	}
 }
 
+// refFollower is a wallet over the repository's reference store, testutil.EphemeralWalletStore,
+// driven the way wallet_test.go drives it: every UpdateChainState call consumes a whole answer of
+// UpdatesSince with a large maximum, so a call never ends on a revert (that store records the
+// reverted index as its tip and cannot continue from there).
+type refFollower struct {
+	store *testutil.EphemeralWalletStore
+	w     *wallet.SingleAddressWallet
+	lazy  bool // syncs rarely: its reorg paths span several reorgs of the node
+	dead  bool
+	syncs int
+}
+
+func newRefFollower(sk types.PrivateKey, cm *chain.Manager, lazy bool) *refFollower {
+	st := testutil.NewEphemeralWalletStore()
+	w, err := wallet.NewSingleAddressWallet(sk, cm, st, &testutil.MockSyncer{}, wallet.WithDebounceInterval(24*time.Hour))
+	if err != nil {
+		panic(err)
+	}
+	return &refFollower{store: st, w: w, lazy: lazy}
+}
+
+func (f *refFollower) sync(cm *chain.Manager) (err error) {
+	defer func() {
+		if r := recover(); r != nil {
+			err = fmt.Errorf("UpdateChainState panicked: %v", r)
+		}
+		if err != nil {
+			f.dead = true
+		}
+	}()
+	for i := 0; i < 1000; i++ {
+		tip, err := f.store.Tip()
+		if err != nil {
+			return err
+		}
+		if tip == cm.Tip() {
+			f.syncs++
+			return nil
+		}
+		rus, aus, err := cm.UpdatesSince(tip, 1000)
+		if err != nil {
+			return err
+		}
+		if err := f.store.UpdateChainState(func(tx wallet.UpdateTx) error { return f.w.UpdateChainState(tx, rus, aus) }); err != nil {
+			return err
+		}
+	}
+	return fmt.Errorf("sync does not terminate")
+}
+
 var chunkSizes = []int{1, 2, 3, 5, 8, 1000}
 
 func runHistory(name string, seed uint64, size int) []*vh.Case {
@@ -107,6 +157,10 @@ func runHistory(name string, seed uint64, size int) []*vh.Case {
 		fs[i].tie = newTie(fmt.Sprintf("%s-chunk%d", name, ch), w.W.addr)
 		defer fs[i].w.Close()
 	}
+	refs := []*refFollower{newRefFollower(w.W.sk, nd.CM, false), newRefFollower(w.W.sk, nd.CM, true)}
+	refCase := &vh.Case{Name: name + "-refstore"}
+	defer refs[0].w.Close()
+	defer refs[1].w.Close()
 	truths := map[int]*truth{}
 	check := func(f *follower, when string) {
 		tipIdx, ok := t.Lookup(nd.CM.Tip().ID)
@@ -121,9 +175,47 @@ func runHistory(name string, seed uint64, size int) []*vh.Case {
 			}
 			truths[tipIdx] = tr
 		}
-		for _, d := range compare(tr, f.store, f.w, nd.CM.TipState()) {
+		for _, d := range compare(tr, f.store.snapshot(), f.w, nd.CM.TipState()) {
 			c.Oracle(d.class, "[chunk %d, %s, tip %d] %s", f.chunk, when, tipIdx, d.msg)
 			f.tie.c.Oracle(d.class, "[%s, tip %d] %s", when, tipIdx, d.msg)
+		}
+	}
+	truthAtTip := func() (*truth, int) {
+		tipIdx, ok := t.Lookup(nd.CM.Tip().ID)
+		if !ok {
+			panic("node tip is not a tree block")
+		}
+		tr := truths[tipIdx]
+		if tr == nil {
+			var err error
+			if tr, err = truthOf(t, tipIdx, w.W.addr); err != nil {
+				panic(err)
+			}
+			truths[tipIdx] = tr
+		}
+		return tr, tipIdx
+	}
+	// syncRef brings a reference-store wallet to the tip and applies the same oracles to it
+	syncRef := func(f *refFollower, when string) {
+		if f.dead {
+			return
+		}
+		kind := "eager"
+		if f.lazy {
+			kind = "lazy"
+		}
+		if err := f.sync(nd.CM); err != nil {
+			refCase.Oracle("refstore-sync-error", "[%s, %s] %v", kind, when, err)
+			return
+		}
+		sn, err := snapshotOf(f.store)
+		if err != nil {
+			refCase.Oracle("refstore-sync-error", "[%s, %s] reading the store: %v", kind, when, err)
+			return
+		}
+		tr, tipIdx := truthAtTip()
+		for _, d := range compare(tr, sn, f.w, nd.CM.TipState()) {
+			refCase.Oracle("refstore-"+d.class, "[%s, %s, tip %d] %s", kind, when, tipIdx, d.msg)
 		}
 	}
 	// submit the leaves' paths, lighter branches first so that later ones cause reorgs
@@ -148,6 +240,10 @@ func runHistory(name string, seed uint64, size int) []*vh.Case {
 			}
 			nd.CM.AddBlocks(t.Get(path[k : k+n])) // an error only means the batch held known or lighter blocks
 			k += n
+			syncRef(refs[0], "mid-history")
+			if rng.Chance(1, 6) {
+				syncRef(refs[1], "mid-history")
+			}
 			// every follower advances by a random number of chunks: sometimes not at all, sometimes
 			// part of the way (possibly stopping right after a revert), sometimes to the tip
 			for _, f := range fs {
@@ -170,6 +266,8 @@ func runHistory(name string, seed uint64, size int) []*vh.Case {
 			}
 		}
 	}
+	syncRef(refs[0], "end")
+	syncRef(refs[1], "end")
 	ended := 0
 	for _, f := range fs {
 		if err := f.syncFully(nd.CM); err != nil {
@@ -207,7 +305,11 @@ func runHistory(name string, seed uint64, size int) []*vh.Case {
 	}
 	// the history as a whole is the oracle-only case; each follower is a model-tied case
 	c.Fails = nil
-	out := []*vh.Case{c}
+	refCase.Nontrivial = c.Nontrivial
+	refCase.Key = fmt.Sprintf("ref %d", seed)
+	refCase.Tags = []string{"store:testutil.EphemeralWalletStore"}
+	refCase.Info = map[string]any{"seed": seed, "history": name, "syncs_eager": refs[0].syncs, "syncs_lazy": refs[1].syncs}
+	out := []*vh.Case{c, refCase}
 	for _, f := range fs {
 		f.tie.c.Nontrivial = c.Nontrivial
 		f.tie.c.Tags = []string{fmt.Sprintf("chunk:%d", f.chunk)}
@@ -235,7 +337,7 @@ func parallel(n int, f func(i int) []*vh.Case) [][]*vh.Case {
 }
 
 func Run(r *vh.Run) {
-	r.Rule = "each case is a fork tree of real blocks in which the wallet address is miner, payer, payee, siafund owner/claimant, v1/v2 contract party and (half of the cases) foundation address; a node is fed the branches so that it reorgs; six wallets follow it with chunk sizes 1,2,3,5,8,1000, advancing by random numbers of chunks; non-trivial = more than one reorg and more than two transaction kinds; distinct by seed"
+	r.Rule = "each case is a fork tree of real blocks in which the wallet address is miner, payer, payee, siafund owner/claimant, v1/v2 contract party and (half of the cases) foundation address; a node is fed the branches so that it reorgs; six wallets over the harness's store follow it with chunk sizes 1,2,3,5,8,1000, advancing by random numbers of chunks, and two wallets over testutil.EphemeralWalletStore follow it with whole UpdatesSince answers (one after every batch, one rarely); non-trivial = more than one reorg and more than two transaction kinds; distinct by seed"
 	rng := vh.NewRNG(vh.NewRNG(r.Seed).U64() ^ 0xC06C06C06)
 	n := r.Pick(250, 4000)
 	seeds := make([]uint64, n)
